@@ -166,7 +166,16 @@ def build(run):
                           sample=f"{name}: accepted with arity {avname(R)}; {nvc} (anti)linearity/independence VCs")
         run.add(name, thunk, kind="values")
 
-    for t in templates():
+    from ufv.nodes import S as _S, Template as _T
+    # list tensors whose components are list tensors themselves (rows): the affine-component rule must look through the nesting
+    nested = [
+        _T("ListTensor[rows 2x2]", C.ListTensor, [_S("a"), _S("b"), _S("c"), _S("d")], lambda o: C.ListTensor(C.ListTensor(o[0], o[1]), C.ListTensor(o[2], o[3]))),
+        _T("ListTensor[rows 2x1 of vectors]", C.ListTensor, [_S("a", (2,)), _S("b", (2,))], lambda o: C.ListTensor(C.ListTensor(o[0], o[1]), C.ListTensor(o[1], o[0]))),
+        _T("ListTensor[[a,b],[Zero,c]]", C.ListTensor, [_S("a"), _S("b"), _S("c")], lambda o: C.ListTensor(C.ListTensor(o[0], o[1]), C.ListTensor(C.Zero(), o[2]))),
+        _T("ListTensor[depth 3]", C.ListTensor, [_S("a"), _S("b")],
+           lambda o: C.ListTensor(C.ListTensor(C.ListTensor(o[0], o[1]), C.ListTensor(o[1], o[0])), C.ListTensor(C.ListTensor(o[1], o[1]), C.ListTensor(o[0], o[0])))),
+    ]
+    for t in list(templates()) + nested:
         if t.name in SKIP or t.cls in (C.CellAvg, C.FacetAvg):
             continue
         if issubclass(t.cls, C.CompoundTensorOperator) or t.cls in (C.Div, C.NablaGrad, C.NablaDiv, C.Curl):
